@@ -48,7 +48,7 @@ R.uf("kwhit", ["str", "str"], "bool")
 AX_KWHIT = ["forall((l, 'str'), True, kwhit(text, l) == (len(l) > 0 and l.lower() in text.lower()))"]
 
 R.contract(
-    T1 + "_match_keywords", "C12",
+    T1 + "_match_keywords", ["C12", "C01"],   # seeds in sorted label order: also a C01 clause
     types={"text": "str", "labels": LBL},
     returns="Dict[str, float]",
     ensures=[
@@ -120,7 +120,7 @@ _SORTED_ITEMS = [    # facts about `sorted(acc.items(), key=kv[0])`, proved at l
     "forall2(m, m2, 0 <= m and m < m2 and m2 < len(_iter), _iter[m][0] < _iter[m2][0])",
 ]
 R.contract(
-    ONE, "C12", name="_t1_one_graph[output-region]", callee=False,
+    ONE, ["C12", "C01"], name="_t1_one_graph[output-region]", callee=False,
     region=("deltas_for_gid: List[Dict[str, Any]] = []", "for nid, val in sorted(acc.items()"),
     types={"gid": "str", "acc": "Dict[Un[Nid], float]"},
     ensures=[
